@@ -62,6 +62,22 @@ CHECKS = {
         'prepare': 'zic',
         'assumptions': ZONENOTE,
     },
+    'C12': {
+        'bins': [rcbin('C12'), {'name': 'c12fuzz', 'src': 'c12fuzz.cc', 'flavour': 'fuzz'},
+                 {'name': 'c12probe-ipat', 'src': 'c12probe.cc', 'flavour': 'ipat', 'harness_flavour': 'plain'},
+                 {'name': 'c12probe-izero', 'src': 'c12probe.cc', 'flavour': 'izero', 'harness_flavour': 'plain'}],
+        'initdiff': {'bins': ['c12probe-ipat', 'c12probe-izero'], 'globs': ['fuzz/seeds/*', 'fuzz/corpus-*/*', 'mutants/*'], 'max_files': 6000},
+        'shards': {'quick': 8, 'thorough': 16},
+        'time_limit': {'quick': 900, 'thorough': 5400},
+        'timeout_is_failure': True,
+        'replay_timeout': 25,
+        'fuzz': {'bin': 'c12fuzz', 'runs': {'quick': 0, 'thorough': 0}, 'max_total_time': {'quick': 40, 'thorough': 480},
+                 'jobs': {'quick': 6, 'thorough': 16}, 'max_len': 8192, 'case_key': 'input_hex', 'unit_timeout': 60,
+                 'timeouts_count': True, 'seed_provider': 'c12_seeds.py',
+                 'dict': ['"TZif"', '"TZif2"', '"TZif3"', '"\\x0aEST5EDT,M3.2.0,M11.1.0\\x0a"', '",J60/"', '",0/0,J365/25"',
+                          '"\\x00\\x00\\x01\\x00"', '"\\x7f\\xff\\xff\\xff\\xff\\xff\\xff\\xff"', '"\\xf8\\x00\\x00\\x00\\x00\\x00\\x00\\x00"']},
+        'assumptions': ['sanitizers (ASan, UBSan) and asserts are the memory-safety/UB oracle; zonemodel reader only classifies inputs'],
+    },
     'C14': {
         'bins': [rcbin('C14')],
         'shards': {'quick': 12, 'thorough': 16},
